@@ -1003,8 +1003,9 @@ def run(ctx):
     res["samples"] = [{"format": f, "content": s} for f, s in nt[:2]] + [{"format": f, "content": s} for f, s in nt[len(nt) // 2:len(nt) // 2 + 3]]
     res["clauses"] = {
         "theorem": ["END TO END on the models (oracle ok_lines_a as conclusion): SRT and MicroDVD for every item list without the "
-                    "separator in text; WebVTT for raw / WebVTT-named spellings, all known tags in all six shapes, voice and "
-                    "unknown tags, on lines without white space at their ends (C04_*_end_to_end*)",
+                    "separator in text; WebVTT for everything the serialiser emits except the references the reader leaves literal "
+                    "(raw / WebVTT-named spellings, all known tags in all six shapes, timestamps, voice and unknown tags, any "
+                    "white space at line ends), also at document level (C04_*_end_to_end*); DFXP tree level up to white space",
                     "WebVTT components: replace chain decodes the six references once; the tag matcher deletes known tags by "
                     "name; line loop = per-cue decode on well-formed documents",
                     "SAMI stage 1 keeps & < > escaped whatever their spelling (second parse gives the text once)",
